@@ -84,12 +84,21 @@ def run_case(case, ctx):
             N = min(6, speccheck.size_bound(start))
             speccheck.check_counts(ctx, spec, start, N, part=f"{name}-count")
             speccheck.check_structure(ctx, spec, start, [pack], part=f"{name}-struct")
+        # 'isomorphic to each other' is judged by an independent partition-refinement
+        # test, not by the library's own Isomorphism.check (whose disagreements with it
+        # are counted)
+        from vf.oracles.speciso import isomorphic
+
+        truly = isomorphic(spec1, spec2)
+        ctx.check(truly, "matched", "the two returned specifications are not isomorphic (independent partition-refinement test)")
         try:
             iso = Isomorphism.check(spec1, spec2)
         except Exception as e:
             ctx.fail("check-raises", f"Isomorphism.check on the returned pair raised {describe_exc(e)}", f"check-raises/{type(e).__name__}")
             return
-        ctx.check(iso, "matched", "the two returned specifications are not isomorphic according to Isomorphism.check")
+        if iso != truly:
+            ctx.label("library-check-disagrees-with-oracle")
+            ctx.count(f"Isomorphism.check={iso} oracle={truly}")
         try:
             bij = Bijection.construct(spec1, spec2)
         except Exception as e:
@@ -133,19 +142,19 @@ def pair_case(draw, tier="quick"):
     else:
         b = base()
     eqpath = draw(st.booleans())
-    if not eqpath:
-        # ParallelSpecFinder documents that classes sharing an equivalence label must be
-        # equivalent; a unary rule that merges statistics is not reversible as an
-        # equivalence (Complement.can_be_equivalent is false), so such packs are only
-        # given to the EqPath variant, which validates the paths.
-        a, b = _strip_merge(a), _strip_merge(b)
+    # A rule that merges statistics onto its only non-empty child is recorded by the
+    # rule database as a two-way edge, but its reverse is not an equivalence for the
+    # library (Complement.can_be_equivalent is false; changelog 4.2.1): extracting
+    # rules then asserts.  That limitation is not what C13 is about, so merging
+    # transforms are not generated here (C01 counts such crashes as search_crashes).
+    a, b = _strip(a, eqpath), _strip(b, eqpath)
     return {"kind": kind, "a": a, "b": b, "eqpath": eqpath}
 
 
 _NOMERGE = {"merge": "id", "dm": "drop", "mr": "rename", "dmr": "dr"}
 
 
-def _strip_merge(case):
+def _strip(case, eqpath):
     import copy
 
     case = copy.deepcopy(case)
@@ -154,6 +163,19 @@ def _strip_merge(case):
         for k, v in list(desc[1].items()):
             if k.startswith("xf") and v in _NOMERGE:
                 desc[1][k] = _NOMERGE[v]
+        # ParallelSpecFinder documents that classes sharing an equivalence label must
+        # be equivalent: unary two-way rules that are not equivalences only go to the
+        # EqPath variant, which validates the paths
+        # Unary two-way rules that are not equivalences (can_be_equivalent() false) are
+        # not generated for either finder.  The basic finder documents that classes
+        # sharing an equivalence label must be equivalent; the EqPath variant validates
+        # the non-equivalence rules on the way into a label, except on the way into an
+        # atom (_atom_path_match is a hook that always answers yes), so with such rules it
+        # returns pairs that differ by a unary node above an atom.  Nothing in the
+        # statement or the documentation says which of the two is intended, so no verdict
+        # is attached to it (see DESIGN.md 9.2).
+        if "equiv" in desc[1]:
+            desc[1]["equiv"] = True
         return desc
 
     pack = case["pack"]
